@@ -18,7 +18,9 @@ from mc.core import Result, Violation
 from mc.props.c06 import ALPHA_FULL, ALPHA_SMALL, SAME_FAMILY_PROGS, first_accepted_kind
 from mc.ref import interp
 
-TZS = ["UTC", "Asia/Tokyo", "Etc/GMT+8", "Asia/Kathmandu"]
+# fixed offsets east and west, a quarter-hour offset, and two zones in which daylight-saving time is in force (time.timezone, the
+# STANDARD offset, is then not the current offset): a POSIX rule that is in DST all year, and a real zone
+TZS = ["UTC", "Asia/Tokyo", "Etc/GMT+8", "Asia/Kathmandu", "XST8XDT,J1/0,J365/23", "Australia/Lord_Howe"]
 _TS = re.compile(r"^(\d{4})-(\d{2})-(\d{2})T(\d{2}):(\d{2}):(\d{2})(\.\d+)?(Z|[+-]\d{2}:\d{2})$")
 
 EXPECTED_REF_NAME = {
@@ -342,7 +344,7 @@ def _worker(chunk):
 def plan(tier: str):
     if tier == "quick":
         progs = gen.programs(ALPHA_FULL, [1, 2]) + gen.programs(ALPHA_SMALL[:9] + ["two", "srcdef", "ctxw"], [3])
-        details, tzs = ["hash", "all", "repr", "hash,context", "context", "repr,context", "hash,repr"], ["UTC", "Asia/Tokyo", "Asia/Kathmandu"]
+        details, tzs = ["hash", "all", "repr", "hash,context", "context", "repr,context", "hash,repr"], ["UTC", "Asia/Tokyo", "Asia/Kathmandu", "XST8XDT,J1/0,J365/23", "Etc/GMT+8"]
     else:
         progs = gen.programs(ALPHA_FULL, [1, 2, 3])
         details, tzs = ["hash", "repr", "context", "all", "hash,repr", "hash,context", "repr,context"], TZS
@@ -431,3 +433,28 @@ def replay(case) -> List[Violation]:
     finally:
         set_tz("UTC")
     return [Violation(bad[0] + ("|unusual-value" if case.get("menu") else ""), bad[1], case)] if bad else []
+
+
+# ---------------------------------------------------------------------------------------------
+# environment grid (mc/envgrid.py): what the SERs say is true in every process (the grid's environments set TZ themselves, including
+# zones in which daylight-saving time is in force)
+
+def env_cases(tier: str):
+    from mc import envgrid
+
+    jobs = [j for j in plan("quick") if not j[1].startswith("history:")]
+    sel = envgrid.pick([j for j in jobs if len(j[0]) <= 2], 25 if tier == "quick" else 150) + envgrid.pick([j for j in jobs if len(j[0]) > 2], 25 if tier == "quick" else 150)
+    from mc.props.c06 import ENV_MANY_KEYS
+
+    sel += [(p, d, None) for p in ENV_MANY_KEYS for d in ("hash", "all")]
+    return [{"prog": list(p), "detail": d, "ctx": contexts_c07(p)[-1]} for p, d, _ in sel]
+
+
+def env_observe(case):
+    from mc import envgrid
+
+    scratch = envgrid.scratch()
+    dg: Dict[str, Dict[str, str]] = {"data": {}, "ctx": {}}
+    bad, info = judge_run(tuple(case["prog"]), case["ctx"], case["detail"], os.environ.get("TZ", "<unset>"), scratch, dg)
+    return envgrid.norm({"judged": bad[0] if bad else None, "class": info.get("class"), "sers": info.get("sers"),
+                         "digests": {k: sorted(v.items()) for k, v in dg.items()}}, scratch)
